@@ -4,6 +4,7 @@ from __future__ import annotations
 
 import json
 import multiprocessing as mp
+import re
 import os
 import random
 import sys
@@ -311,7 +312,7 @@ def load_known():
     return out
 
 
-def match_known(known, prop, oid, fail, cls):
+def match_known(known, prop, oid, fail, cls, nclasses=0):
     """a failure is suppressed only if obligation, kind, label, site AND its input class are listed"""
     for k in known:
         if k.get("status") != "known" or k.get("property") != prop:
@@ -322,7 +323,11 @@ def match_known(known, prop, oid, fail, cls):
             continue
         if k.get("site", "") != fail.get("site", ""):
             continue
-        if "classes" in k and cls not in k["classes"]:
+        if k.get("classes") is not None and cls not in k["classes"]:
+            continue
+        if k.get("detail_regex") and not re.search(k["detail_regex"], fail.get("detail", "")):
+            continue
+        if k.get("max_classes") is not None and nclasses > k["max_classes"]:
             continue
         return k
     return None
@@ -444,6 +449,7 @@ def main(argv=None):
     ap.add_argument("--list", action="store_true")
     ap.add_argument("--no-evidence", action="store_true")
     ap.add_argument("-v", action="store_true")
+    ap.add_argument("--dump", default=None, help="write every reproduced failure (with its input classes) to this JSON file")
     a = ap.parse_args(argv)
     if a.replay:
         return replay_file(a.replay)
@@ -461,6 +467,17 @@ def main(argv=None):
     import pyttb  # noqa: F401 -- import before forking
     results = run_pool(prop, [i for i, _ in obs], seed, a.jobs, a.v)
     results.sort(key=lambda r: r["id"])
+    if a.dump:
+        out = []
+        for r in results:
+            for f in r["failures"]:
+                cls = sorted(c for c, cr in f["classes"].items() if cr["reproduced"])
+                if cls:
+                    any_cr = next(cr for cr in f["classes"].values() if cr["reproduced"])
+                    out.append(dict(property=prop, obligation=r["id"], kind=any_cr["kind"], label=f["label"], site=any_cr["site"],
+                                    classes=cls, detail=any_cr["detail"][:200], example=any_cr["assignment"]))
+        with open(a.dump, "w") as fh:
+            json.dump(out, fh, indent=1)
     return report(prop, a.tier, seed, results, time.time() - t0, write=not a.no_evidence and a.only is None)
 
 
@@ -478,8 +495,8 @@ def report(prop, tier, seed, results, wall, write=True):
                 for c, cr in f["classes"].items():
                     if not cr["reproduced"]:
                         continue
-                    ff = dict(f, kind=cr["kind"], site=cr["site"])
-                    k = match_known(known, prop, r["id"], ff, c)
+                    ff = dict(f, kind=cr["kind"], site=cr["site"], detail=cr["detail"])
+                    k = match_known(known, prop, r["id"], ff, c, sum(1 for x in f["classes"].values() if x["reproduced"]))
                     if k is not None:
                         matched = k
                     else:
